@@ -58,6 +58,8 @@ def node_kind(doc, i):
     if not 1 <= i <= len(doc):
         return "nowhere"
     n = doc[i - 1]
+    if n["t"] == "bool" and n["anchor"]:
+        return "anchored-bool"      # ruamel loads an anchored boolean as ScalarBoolean, whose text is "1"/"0"
     if n["alias"]:
         return "alias"
     p = doc[n["par"] - 1] if n["par"] else None
@@ -141,6 +143,8 @@ def signature(doc, case, problem):
         return "crash:%s:%s" % (what, case["cls"] or "plain")
     if case["cls"]:
         return "%s:%s:%s" % (kind, case["cls"], what)
+    if what == "anchored-bool":
+        return "%s:anchored-bool" % kind
     return "%s:plain:%s:%s" % (kind, pso.shape(case["o"]), what)
 
 
